@@ -2,6 +2,7 @@
 from __future__ import annotations
 
 import ast
+import re
 import json
 import math
 import os
@@ -226,6 +227,12 @@ def check_curve(prog: Program, rep, rule: str) -> None:
             bad_form = f'returns {leaf.rf!r}, not a quadratic in the query Mach'
             break
         names = {d: repr(co[d]) if d in co else '0' for d in (0, 1, 2)}
+        # a record read by position (unpacking, entry[k]) is the field of that position
+        cp_fields = prog.namedtuple_fields(prog.cls(C.M_TC, 'CurvePoint'))
+        for d in names:
+            m_ = re.fullmatch(r'(.*)\[(\d)\]', names[d])
+            if m_ and int(m_.group(2)) < len(cp_fields):
+                names[d] = f'{m_.group(1)}.{cp_fields[int(m_.group(2))]}'
         ent = {names[0].rsplit('.', 1)[0], names[1].rsplit('.', 1)[0], names[2].rsplit('.', 1)[0]}
         if not (names[0].endswith('.c') and names[1].endswith('.b') and names[2].endswith('.a') and len(ent) == 1):
             bad_form = f'evaluates {leaf.rf!r}: coefficients are not (c, b, a) of one and the same entry'
@@ -476,69 +483,95 @@ def check_bc(prog: Program, rep, rule: str) -> None:
     dbm = prog.func(C.M_TC, 'TrajectoryCalc.drag_by_mach')
     it = prog.func(C.M_TC, 'TrajectoryCalc._init_trajectory')
     rep.saw(dbm)
+    # the solver as _init_trajectory leaves it for a symbolic shot (whatever the attributes are called): drag_by_mach(m)
+    # must be K * selector(Mach nodes of the shot's table, curve of the shot's table, m) / BC of the shot's drag model
     ev = Evaluator(prog, opaque={'_calculate_by_curve_and_mach_list', 'calculate_curve', '_get_only_mach_data',
                                  'get_velocity_for_temp', 'calc_stability_coefficient', 'get_calc_step'})
-    st = State()
-    selfv = ev.new_inst(st, tcc, {'_bc': S('BC'), '_curve': SymObj('curve'), '__mach_list': SymObj('ml'),
-                                  '_table_data': SymObj('table')})
-    try:
-        r, st = ev.call_value(dbm, [S('m')], self_val=selfv, st=st)
-    except Undecided as exc:
-        raise AnalysisError(f'drag_by_mach: {exc}') from exc
-    const_mod = prog.module(C.M_CONST)
-    rho0 = C.const_number(prog, const_mod, 'cStandardDensity')
-    if rho0 is None:
-        raise AnalysisError('cStandardDensity is not a literal')
-    want_k = rho0 * math.pi / (8 * 144)
-    ok = False
-    detail = repr(r)
-    if isinstance(r, Scalar):
-        cd_atoms = [a for a in r.rf.all_atoms() if A.ATOMS[a].kind == 'sym' and '_calculate_by_curve_and_mach_list' in A.ATOMS[a].name]
-        if len(cd_atoms) == 1:
-            cd = A.RF(A.Poly.atom(A.ATOMS[cd_atoms[0]]))
-            k = A.ratio_const(r.rf, cd / A.sym('BC'))
-            if k is not None:
-                detail = f'Cd * {k:.6g} / BC'
-                ok = abs(k / want_k - 1) <= 1e-4
-                args_ok = 'ml' in A.ATOMS[cd_atoms[0]].name and 'curve' in A.ATOMS[cd_atoms[0]].name
-                ok = ok and args_ok
-    if ok:
-        rep.ok(rule, dbm.where, f'drag_by_mach = {detail}; K matches {rho0} * pi / (8*144) = {want_k:.6g}')
-    else:
-        rep.fail(rule, tc.path, dbm.node.lineno, dbm.qualname, 'K',
-                 f'drag_by_mach computes {detail}; the statement says Cd * {want_k:.6g} / BC '
-                 f'(standard density {rho0} lb/ft^3 * pi / (8*144))')
-    # wiring in _init_trajectory
     st = State()
     selfv = ev.new_inst(st, tcc, {'_config': SymObj('cfg')})
     try:
         tree, st = ev.run_func(it, {it.positional[0]: selfv, it.positional[1]: SymObj('shot')}, st)
     except Undecided as exc:
         raise AnalysisError(f'_init_trajectory: {exc}') from exc
+    const_mod = prog.module(C.M_CONST)
+    rho0 = C.const_number(prog, const_mod, 'cStandardDensity')
+    if rho0 is None:
+        raise AnalysisError('cStandardDensity is not a literal')
+    want_k = rho0 * math.pi / (8 * 144)
+    sel = prog.func(C.M_TC, '_calculate_by_curve_and_mach_list')
+    n_paths = 0
     for _p, leaf in leaves(tree):
-        h = leaf.state.heap[selfv.oid]
-        want = {'_bc': 'shot.ammo.dm.BC', '_table_data': 'shot.ammo.dm.drag_table'}
-        for attr, path in want.items():
-            v = h.get(attr)
-            if isinstance(v, SymObj) and v.path == path:
-                rep.ok(rule, it.where, f'self.{attr} = {path}')
+        if leaf.kind == 'raise':
+            continue
+        n_paths += 1
+        try:
+            r, _st2 = ev.call_value(dbm, [S('m')], self_val=selfv, st=leaf.state)
+        except Undecided as exc:
+            raise AnalysisError(f'drag_by_mach: {exc}') from exc
+        for _cp, rv in cond_leaves(r):
+            if not isinstance(rv, Scalar):
+                raise AnalysisError(f'drag_by_mach returns {rv!r} in the abstract evaluation')
+            cd_atoms = [a for a in rv.rf.all_atoms() if A.ATOMS[a].kind == 'sym' and A.ATOMS[a].name.startswith(sel.name + '(')]
+            if len(cd_atoms) != 1:
+                rep.fail(rule, tc.path, dbm.node.lineno, dbm.qualname, 'K',
+                         f'drag_by_mach computes {rv!r}: not one evaluation of the drag curve')
+                continue
+            name = A.ATOMS[cd_atoms[0]].name
+            cd = A.RF(A.Poly.atom(A.ATOMS[cd_atoms[0]]))
+            k = A.ratio_const(rv.rf, cd / A.sym('shot.ammo.dm.BC'))
+            if k is None:
+                rep.fail(rule, tc.path, dbm.node.lineno, dbm.qualname, 'K',
+                         f'drag_by_mach computes {rv!r}: not (constant) * Cd / (BC of the shot\'s drag model)')
+            elif abs(k / want_k - 1) > 1e-4:
+                rep.fail(rule, tc.path, dbm.node.lineno, dbm.qualname, 'K',
+                         f'drag_by_mach computes Cd * {k:.6g} / BC; the statement says Cd * {want_k:.6g} / BC '
+                         f'(standard density {rho0} lb/ft^3 * pi / (8*144))')
             else:
-                rep.fail(rule, tc.path, it.node.lineno, it.qualname, f'wiring:{attr}',
-                         f'self.{attr} is {v!r} on entry, expected {path}')
-        for attr, fn_ in (('_curve', 'calculate_curve'), ('__mach_list', '_get_only_mach_data')):
-            v = h.get(attr)
-            if isinstance(v, SymObj) and fn_ in v.path and 'shot.ammo.dm.drag_table' in v.path:
-                rep.ok(rule, it.where, f'self.{attr} = {fn_}(shot.ammo.dm.drag_table)')
+                rep.ok(rule, dbm.where, f'drag_by_mach = Cd * {k:.6g} / shot.ammo.dm.BC; K matches {rho0} * pi / (8*144) = {want_k:.6g}')
+            # arguments of the selector, by its own parameter order
+            inner = name[len(sel.name) + 1:-1]
+            parts, depth, cur = [], 0, ''
+            for ch in inner:
+                if ch == ',' and depth == 0:
+                    parts.append(cur.strip())
+                    cur = ''
+                    continue
+                depth += ch in '([<'
+                depth -= ch in ')]>'
+                cur += ch
+            parts.append(cur.strip())
+            roles_ = dict(zip(sel.positional, parts))
+            want_args = {}
+            for pname in sel.positional:
+                low = pname.lower()
+                if 'curve' in low:
+                    want_args[pname] = 'calculate_curve(shot.ammo.dm.drag_table)'
+                elif 'list' in low or 'data' in low:
+                    want_args[pname] = '_get_only_mach_data(shot.ammo.dm.drag_table)'
+            if len(want_args) != 2 or len(parts) != len(sel.positional):
+                raise AnalysisError(f'the selector\'s parameters {sel.positional} are not (Mach nodes, curve, Mach)')
+            for pname, want in want_args.items():
+                if roles_.get(pname) == want:
+                    rep.ok(rule, it.where, f'the selector\'s `{pname}` is {want}')
+                else:
+                    rep.fail(rule, tc.path, it.node.lineno, it.qualname, f'wiring:{pname}',
+                             f'the selector\'s `{pname}` is {roles_.get(pname)} when drag_by_mach runs, expected {want} (of the '
+                             f'shot\'s own drag table)')
+            mach_p = [p_ for p_ in sel.positional if p_ not in want_args][0]
+            if roles_.get(mach_p) == 'm':
+                rep.ok(rule, dbm.where, 'the drag curve is evaluated at the Mach number given')
             else:
-                rep.fail(rule, tc.path, it.node.lineno, it.qualname, f'wiring:{attr}',
-                         f'self.{attr} is {v!r} on entry, expected {fn_} of the shot\'s own drag table')
+                rep.fail(rule, tc.path, dbm.node.lineno, dbm.qualname, 'wiring:mach',
+                         f'the drag curve is evaluated at {roles_.get(mach_p)}, not at the Mach number given')
+    if n_paths == 0:
+        raise AnalysisError('_init_trajectory has no non-raising path')
 
 
 def run(prog: Program, rep, thorough: bool) -> None:
     A.reset()
     rep.rule('C09.R1', 'shipped tables literal, ascending from 0, equal to the reference, never written', 9 + 2)
     rep.rule('C09.R2', 'curve entries interpolate their nodes; selector form and index range', 4)
-    rep.rule('C09.R3', 'BC definition and wiring', 6)
+    rep.rule('C09.R3', 'BC definition and wiring', 5)
     rep.rule('C09.R4', 'the selector returns an entry whose nodes include both neighbours of the query (proof per return site)', 1)
     check_tables(prog, rep, 'C09.R1')
     check_curve(prog, rep, 'C09.R2')
